@@ -10,7 +10,7 @@ def plan(tier):
     conds.append(Cond("vf.h.k_curve", "curve_inductive", case=0, timeout=300, engine="smt", label="H04-curve-inductive[shipped 41-point table]", weight=2))
     conds.append(Cond("vf.h.k_curve", "curve_inductive", case=2, timeout=300, engine="smt", label="H04-curve-inductive[4-point table, 30 s]", weight=2))
     conds.append(Cond("vf.h.k_curve", "curve", case=1, timeout=300, engine="smt", label="H04-curve-unrolled[shipped, symbolic duration <= 60 s]", weight=2))
-    conds.append(Cond("vf.h.k_curve", "curve", case=0, timeout=900, engine="smt", label="H04-curve-unrolled[shipped, durations 1..179 s]", weight=8))
+    conds.append(Cond("vf.h.k_curve", "curve", case=0, timeout=900, engine="smt", label="H04-curve-unrolled[shipped, durations 1..120 s]", weight=8))
     if tier == "thorough":
         conds.append(Cond("vf.h.k_curve", "curve", case=2, timeout=900, engine="smt", label="H04-curve-unrolled[4-point, durations 1..89 s]", weight=8))
     return {
@@ -24,7 +24,7 @@ def plan(tier):
         "entry_points": ["step_simulation_ops.step_vehicle", "BEV.idle/consume_energy/add_energy", "ICE.idle/consume_energy/add_energy", "TabularPowercurve.charge",
                          "vehicle_state_ops.move/charge", "Vehicle.tick_energy_expended/tick_energy_gained/modify_energy"],
         "bounds": C.ARENA_BOUNDS + C.T_BOUNDS[1:] + ["H04-led: capacity 1..500, rates 0..500, cost 0..1000, step from {1,7,60,100,120} s (rate x time with both symbolic is non-linear)",
-                                                      "H04-curve: start <= limit <= 50 kWh, power 0..500 kW; inductive form: any real duration; unrolled: durations {1,7,30,59,60,61,90,119,120,121,179} s and symbolic <= 60 s"],
+                                                      "H04-curve: start <= limit <= 50 kWh, power 0..500 kW; inductive form: any real duration; unrolled: durations {1,7,30,59,60,61,90,119,120} s and symbolic <= 60 s"],
         "outside": C.T_OUTSIDE + ["TabularPowertrain.link_cost itself (numpy interp on concrete speeds: run for real in T-upd)", "rounding drift over long histories (floats as reals)"],
         "stubs": C.STUBS_COMMON + C.STUBS_UPD + ["py2smt: np.interp encoded as a nested ite over the table read from the real object; float constants as decimal literals"],
         "assumptions": ["pre-state satisfies INV"],
